@@ -43,7 +43,9 @@ SIGMA_FULL = [
     '      | x \\n| \\1$ |\n',
     '      | t |\\\n',
     '  @bad tag\n',
+    '  @ok @bad tag\n',
     '  @t #c\n',
+    '      |\n',
     '#language: fr\n',
     '  #language: xx\n',
     'free text  \n',
@@ -51,6 +53,7 @@ SIGMA_FULL = [
     'Scénario: é\r\n',
     '\U0001F600 x\n',
     '\\"\\"\\"\n',
+    '  \\`\\`\\` x\n',
 ]
 SIGMA_CORE = [
     '\n',
@@ -78,6 +81,7 @@ EXTRA_PREFIXES = [
     'Feature: f\n  Scenario Outline: o\n    And g <a(b>\n    Examples:\n      | a(b |\n',
     'Feature: f\n  Rule: r\n    Background:\n      Given g\n    Scenario: s\n      Given h\n        | a |\n',
     'Feature: f\n  Scenario: s\n    Given g\n  @t\n',
+    'Feature: f\n  Scenario: s\n    Given g\n      | a | b |\n      | c |\n  @t\n',
     'Feature: f\n  Scenario Outline: o\n    Given g\n    Examples:\n    | a |\n  @t\n  # c\n\n',
 ]
 
